@@ -28,7 +28,9 @@ use serde_json::{json, Value};
 use tokio::sync::Notify;
 
 const PROP: &str = "C40";
-const BASE: u64 = 10;
+const BASE: u64 = 25;
+/// the model's `None` (no subjective head yet)
+const NONE: i64 = -1000;
 
 #[derive(Debug)]
 pub struct GatedStore {
@@ -139,11 +141,12 @@ impl Fixture {
         store.insert(unsafe { VerifiedExtendedHeaders::new_unchecked(headers) }).await.unwrap();
         Fixture { store: Arc::new(store), hashes, peers: (0..npeers).map(|_| PeerId::random()).collect(), maxh }
     }
-    fn hash(&self, x: u64) -> Hash {
+    /// data hash of model height x (relative to the base, may be negative); 0 = a hash no header has
+    fn hash(&self, x: i64) -> Hash {
         if x == 0 {
             Hash::Sha256([0xEE; 32])
         } else {
-            self.hashes[(BASE + x) as usize]
+            self.hashes[(BASE as i64 + x) as usize]
         }
     }
     fn pidx(&self, p: &PeerId) -> u64 {
@@ -156,7 +159,7 @@ struct World<'a> {
     gate: Arc<GatedStore>,
     t: VPoolTracker<GatedStore>,
     /// right-hash announcements made so far (peer, model height) - a fact of the run, not a verdict
-    announced_right: HashSet<(u64, u64)>,
+    announced_right: HashSet<(u64, i64)>,
 }
 
 impl<'a> World<'a> {
@@ -166,13 +169,13 @@ impl<'a> World<'a> {
     }
 
     /// Apply one operation ([a, p, x, h]); the result in the spec's encoding.
-    async fn apply(&mut self, a: &str, p: u64, x: u64, h: u64) -> Value {
+    async fn apply(&mut self, a: &str, p: u64, x: i64, h: i64) -> Value {
         match a {
             "announce" => {
                 if x == h {
                     self.announced_right.insert((p, h));
                 }
-                self.t.add_peer_for_hash(self.fx.peers[p as usize - 1], self.fx.hash(x), BASE + h);
+                self.t.add_peer_for_hash(self.fx.peers[p as usize - 1], self.fx.hash(x), (BASE as i64 + h) as u64);
                 json!(["none"])
             }
             "remove_peer" => {
@@ -180,7 +183,7 @@ impl<'a> World<'a> {
                 json!(["none"])
             }
             "arrive" => {
-                self.gate.release(BASE + h);
+                self.gate.release((BASE as i64 + h) as u64);
                 json!(["none"])
             }
             "advance" => {
@@ -203,8 +206,8 @@ impl<'a> World<'a> {
         }
     }
 
-    fn query(&self, h: u64) -> Value {
-        match catch(|| self.t.get_pool(BASE + h)) {
+    fn query(&self, h: i64) -> Value {
+        match catch(|| self.t.get_pool((BASE as i64 + h) as u64)) {
             Err(msg) => json!(["panic", msg]),
             Ok(VPoolQuery::Peers(v)) => json!(["peers", v.iter().map(|p| self.fx.pidx(p)).collect::<Vec<_>>()]),
             Ok(VPoolQuery::CandidatesNotValidated) => json!(["not-validated"]),
@@ -214,13 +217,13 @@ impl<'a> World<'a> {
     }
 
     fn head(&self) -> i64 {
-        self.t.subjective_head().map(|h| h as i64 - BASE as i64).unwrap_or(-1)
+        self.t.subjective_head().map(|h| h as i64 - BASE as i64).unwrap_or(NONE)
     }
 }
 
-fn op_of(v: &Value) -> (String, u64, u64, u64) {
+fn op_of(v: &Value) -> (String, u64, i64, i64) {
     let a = v.as_array().unwrap();
-    (a[0].as_str().unwrap().to_string(), a[1].as_u64().unwrap(), a[2].as_u64().unwrap(), a[3].as_u64().unwrap())
+    (a[0].as_str().unwrap().to_string(), a[1].as_u64().unwrap(), a[2].as_i64().unwrap(), a[3].as_i64().unwrap())
 }
 
 fn as_set(v: &Value) -> BTreeSet<u64> {
@@ -239,10 +242,10 @@ struct Judged {
 
 /// Compare the observation after a step with the model's expectation and judge it by the statement.
 /// `drained_blocks`: peers found in BlockPeers events when the harness drained the tracker after the step.
-fn judge(w: &World, heights: &[u64], exp: &Value, real_res: &Value, real_q: &[(u64, Value)], real_hd: i64, drained_blocks: Option<&BTreeSet<u64>>) -> Judged {
+fn judge(w: &World, heights: &[i64], exp: &Value, real_res: &Value, real_q: &[(i64, Value)], real_hd: i64, drained_blocks: Option<&BTreeSet<u64>>) -> Judged {
     // no panic
     if let Some((h, q)) = real_q.iter().find(|(_, q)| q[0] == "panic") {
-        return Judged { violation: Some(("panic".into(), format!("get_pool({}) panicked: {}", BASE + h, q[1]))), drift: None };
+        return Judged { violation: Some(("panic".into(), format!("get_pool(base{h:+}) panicked: {}", q[1]))), drift: None };
     }
     // (1) offered only if announced the stored header's data hash
     for (h, q) in real_q {
@@ -250,15 +253,15 @@ fn judge(w: &World, heights: &[u64], exp: &Value, real_res: &Value, real_q: &[(u
             for p in as_set(&q[1]) {
                 if !w.announced_right.contains(&(p, *h)) {
                     return Judged { violation: Some(("offered-unannounced".into(),
-                        format!("get_pool(base+{h}) offers peer {p} which never announced the data hash of that height"))), drift: None };
+                        format!("get_pool(base{h:+}) offers peer {p} which never announced the data hash of that height"))), drift: None };
                 }
             }
         }
     }
     // (3) pools more than ten below the newest validated height are dropped
     for (h, q) in real_q {
-        if real_hd >= 0 && (*h as i64) < real_hd - 10 && (q[0] == "peers" || q[0] == "not-validated") {
-            return Judged { violation: Some(("old-pool-kept".into(), format!("pool of base+{h} still exists with subjective head base+{real_hd}"))), drift: None };
+        if real_hd != NONE && *h < real_hd - 10 && (q[0] == "peers" || q[0] == "not-validated") {
+            return Judged { violation: Some(("old-pool-kept".into(), format!("pool of base{h:+} still exists with subjective head base{real_hd:+}"))), drift: None };
         }
     }
     // (2) who must be blocked (model: owe) is blocked
@@ -285,14 +288,14 @@ fn judge(w: &World, heights: &[u64], exp: &Value, real_res: &Value, real_q: &[(u
         let m = &exp["q"][h.to_string()];
         let r = &real_q.iter().find(|(k, _)| k == h).unwrap().1;
         if r != m {
-            diffs.push(format!("get_pool(base+{h}) {r} vs model {m}"));
+            diffs.push(format!("get_pool(base{h:+}) {r} vs model {m}"));
         }
     }
     Judged { violation: None, drift: (!diffs.is_empty()).then(|| diffs.join("; ")) }
 }
 
-fn heights_of(exp: &Value) -> Vec<u64> {
-    let mut v: Vec<u64> = exp["q"].as_object().unwrap().keys().map(|k| k.parse().unwrap()).collect();
+fn heights_of(exp: &Value) -> Vec<i64> {
+    let mut v: Vec<i64> = exp["q"].as_object().unwrap().keys().map(|k| k.parse().unwrap()).collect();
     v.sort();
     v
 }
@@ -337,14 +340,14 @@ pub fn replay(args: &Args) -> Summary {
                     w.apply(&a, p, x, h).await;
                 }
                 let res = w.apply(&a, p, x, h).await;
-                let q: Vec<(u64, Value)> = heights.iter().map(|h| (*h, w.query(*h))).collect();
+                let q: Vec<(i64, Value)> = heights.iter().map(|h| (*h, w.query(*h))).collect();
                 let hd = w.head();
                 let need_drain = !as_set(&case["owe"]).is_empty();
                 let blocks = need_drain.then(|| drain(&mut w));
                 (judge(&w, &heights, case, &res, &q, hd, blocks.as_ref()), res, q, hd)
             });
             let (j, res, q, hd) = out;
-            let nontrivial = case["res"][0] != "none" && case["res"][0] != "pending" || a == "announce" && case["hd"].as_i64().unwrap() >= 0;
+            let nontrivial = case["res"][0] != "none" && case["res"][0] != "pending" || a == "announce" && case["hd"].as_i64().unwrap() != NONE;
             s.case(PROP, nontrivial.then(|| format!("{}|{}", case["path"], case["act"])), || json!({"act": case["act"], "path_len": case["path"].as_array().unwrap().len()}));
             if let Some((kind, why)) = j.violation {
                 s.violation(PROP, json!({"case": case, "kind": kind, "op": a, "why": why, "real": {"res": res, "q": q, "hd": hd}}));
@@ -363,7 +366,7 @@ pub fn replay(args: &Args) -> Summary {
             let w = sim.as_mut().unwrap();
             let (res, q, hd) = rt.block_on(async {
                 let res = w.apply(&a, p, x, h).await;
-                let q: Vec<(u64, Value)> = heights.iter().map(|h| (*h, w.query(*h))).collect();
+                let q: Vec<(i64, Value)> = heights.iter().map(|h| (*h, w.query(*h))).collect();
                 (res, q, w.head())
             });
             // obligations are judged on the events of the following polls: not drained here (would change the run);
@@ -418,32 +421,43 @@ pub fn record(args: &Args) -> Summary {
     let rt = tokio::runtime::Builder::new_current_thread().enable_time().start_paused(true).build().unwrap();
     let fx = rt.block_on(Fixture::new(nh, np as usize));
     let mut rng = Rng(seed.wrapping_mul(0x9E3779B97F4A7C15) | 1);
-    let heights: Vec<u64> = (1..=nh).collect();
+    // heights 1..=nh above the base and five heights more than the window below it (base-15 .. base-11)
+    let nh = nh as i64;
+    let heights: Vec<i64> = (-15..=-11).chain(1..=nh).collect();
     for run in 0..runs {
         tw.emit(json!({"name": "reset", "run": run}));
         let mut w = World::new(&fx);
-        let mut arrived: BTreeSet<u64> = BTreeSet::new();
-        let mut frontier = 1u64; // announcements cluster around a moving height, headers arrive roughly in order
+        let mut arrived: BTreeSet<i64> = BTreeSet::new();
+        let mut frontier = 1i64; // announcements cluster around a moving height, headers arrive roughly in order
         let mut quiet = false;
         let mut must_drain = true;
+        // notifications may reach the tracker before its first poll has learned the store's head
+        let mut early = if rng.below(2) == 0 { 1 + rng.below(3) } else { 0 };
         for i in 0..ops {
+            let any_height = |rng: &mut Rng| -> i64 {
+                if rng.below(3) == 0 { -15 + rng.below(5) as i64 } else { 1 + rng.below(nh as u64) as i64 }
+            };
             // discipline (see Gen_PoolTracker / spec): after an arrival, an advance or a new pool, poll until Pending
-            let (a, p, x, h) = if must_drain {
+            let (a, p, x, h): (&str, u64, i64, i64) = if early > 0 {
+                early -= 1;
+                let h = any_height(&mut rng);
+                ("announce", 1 + rng.below(np), if rng.below(4) == 0 { 0 } else { h }, h)
+            } else if must_drain {
                 ("poll", 0, 0, 0)
             } else {
-                match rng.below(20) {
+                match rng.below(21) {
                     0..=9 => {
-                        let h = (frontier + rng.below(4)).saturating_sub(1).clamp(1, nh);
+                        let h = (frontier + rng.below(4) as i64 - 1).clamp(1, nh);
                         let x = match rng.below(6) {
                             0 => 0,
-                            1 => 1 + rng.below(nh),
+                            1 => 1 + rng.below(nh as u64) as i64,
                             _ => h,
                         };
                         ("announce", 1 + rng.below(np), x, h)
                     }
                     10..=12 => {
-                        let lo = frontier.saturating_sub(2).max(1);
-                        let cand: Vec<u64> = (lo..=(frontier + 2).min(nh)).filter(|h| !arrived.contains(h)).collect();
+                        let lo = (frontier - 2).max(1);
+                        let cand: Vec<i64> = (lo..=(frontier + 2).min(nh)).filter(|h| !arrived.contains(h)).collect();
                         if cand.is_empty() {
                             ("poll", 0, 0, 0)
                         } else {
@@ -454,8 +468,13 @@ pub fn record(args: &Args) -> Summary {
                     14 if quiet => ("advance", 0, 0, 0),
                     15 => {
                         // a jump ahead: eviction of everything more than ten below
-                        let h = (frontier + 9 + rng.below(4)).min(nh);
+                        let h = (frontier + 9 + rng.below(4) as i64).min(nh);
                         if arrived.contains(&h) { ("poll", 0, 0, 0) } else { ("arrive", 0, 0, h) }
+                    }
+                    16 => {
+                        // a late notification for a height far below the window
+                        let h = -15 + rng.below(5) as i64;
+                        ("announce", 1 + rng.below(np), h, h)
                     }
                     _ => ("poll", 0, 0, 0),
                 }
@@ -491,11 +510,17 @@ pub fn record(args: &Args) -> Summary {
                 }
                 _ => {}
             }
-            let q: Vec<(u64, Value)> = heights.iter().map(|h| (*h, w.query(*h))).collect();
+            let q: Vec<(i64, Value)> = heights.iter().map(|h| (*h, w.query(*h))).collect();
             let hd = w.head();
             if let Some((hh, qq)) = q.iter().find(|(_, q)| q[0] == "panic") {
                 s.violation(PROP, json!({"kind": "panic", "op": "get_pool", "mode": "recorded", "run": run, "seed": seed, "event": i,
-                    "why": format!("get_pool(base+{hh}) panicked: {}", qq[1])}));
+                    "why": format!("get_pool(base{hh:+}) panicked: {}", qq[1])}));
+                break;
+            }
+            // the statement's clauses on what the tracker shows (the trace spec judges the same log exactly)
+            if let Some((hh, _)) = q.iter().find(|(h, q)| hd != NONE && *h < hd - 10 && (q[0] == "peers" || q[0] == "not-validated")) {
+                s.violation(PROP, json!({"kind": "old-pool-kept", "op": a, "mode": "recorded", "run": run, "seed": seed, "event": i,
+                    "why": format!("pool of base{hh:+} still exists with subjective head base{hd:+}")}));
                 break;
             }
             let qmap: serde_json::Map<String, Value> = q.iter().map(|(h, v)| (h.to_string(), v.clone())).collect();
